@@ -153,6 +153,10 @@ def CancellationToken.reset (_bits : Nat) : Nat := 0
 
 MODULES = {'Edge': gen_edge, 'Stamp': gen_stamp, 'Ids': gen_ids, 'Consts': gen_consts}
 
+# decision-logic skeletons of impure functions (translate/gen_logic.py, translate/logic.py)
+import gen_logic
+MODULES.update(gen_logic.LOGIC_MODULES)
+
 def main():
     ap = argparse.ArgumentParser()
     ap.add_argument('--repo', default='/repo')
@@ -163,6 +167,7 @@ def main():
     rc = 0
     for m in (a.modules or list(MODULES)):
         path = os.path.join(a.out, m + '.lean')
+        FnTranslator._n = 0      # fresh-name counter: output independent of the module list/order
         try:
             text = MODULES[m](a.repo)
         except TranslateError as e:
